@@ -216,6 +216,9 @@ class SysStub:
             c = _Contact()
             c.la_NDOF = np.arange(self.nla_N)
             c.la_FDOF = np.arange(self.nla_F)
+            c.qDOF = np.arange(self.nq)
+            c.uDOF = np.arange(self.nu)
+            c.gamma_F = lambda t, q, u: self.gamma_F(t, q, u)
             with npshim.active(True):
                 c.friction_laws = [([0], list(range(self.nla_F)), Sphere(self.mu))]
             self._contacts.append(c)
